@@ -1,18 +1,33 @@
 """C54 scenario server — runs in a subprocess started by vf/props/c54.py (never imported by it).
 
-    python c54_server.py '<json config>'
+    python -B c54_server.py '<json config>'
 
-Installs the requested reactor, a permanent ``sys.addaudithook`` recorder (gated by a flag that is
-only set while the reactor serves), a failure-collecting log observer, and an ``FTPFactory`` on
-127.0.0.1:0 whose realm hands ``FTPShell(rw_root)`` to the password user and
-``FTPAnonymousShell(anon_root)`` to anonymous.  Prints ``PORT <n>`` on stdout.  Every control
-channel line is appended to the same ordered log as the filesystem events, so the parent can
-attribute an event to the command being processed.  The line ``XSTOP <token>`` disarms the hook,
-writes the log (JSON) to cfg["out"] and stops the reactor.
+Installs the requested reactor, an ``FTPFactory`` on 127.0.0.1:0 whose realm hands
+``FTPShell(rw_root)`` to the password user and ``FTPAnonymousShell(anon_root)`` to anonymous, a
+failure-collecting log observer and a permanent ``sys.addaudithook`` that is both
+
+* RECORDER: every filesystem audit event with its path arguments (absolute, lexical) goes into
+  one ordered log together with the control-channel lines received, so the parent can attribute
+  an event to the command being processed; and
+* GUARD (containment — this script is run against deliberately broken twisted trees, as root):
+  audit hooks run *before* the operation, so for every mutating event (remove, rename, mkdir,
+  rmdir, chmod, chown, truncate, utime, link, symlink, mkfifo, mknod, xattr, shutil.*, open with
+  any write/create/append/truncate flag) with a path that is not the scratch top or inside it the
+  hook records the event as blocked and raises PermissionError: the operation is NOT performed.
+  Any chdir is refused (relative paths stay anchored inside the scratch top), and process
+  creation (os.system/exec/spawn/fork, subprocess.Popen) is refused.
+
+Second containment layer: when started as root the process drops to uid/gid 65534 (after binding
+the port and importing everything, before serving anything) and exits with code 77 if that does
+not work; it never serves as root.  Prints ``PORT <n>`` on stdout once armed.  The line
+``XSTOP <token>`` disarms the hook, writes the log (JSON) to cfg["out"] and stops the reactor.
 """
 import json
 import os
 import sys
+
+UNPRIV = 65534
+EXIT_CANNOT_DROP = 77
 
 # audit event -> indexes of its arguments that are paths (shutil.* handled generically)
 PATH_ARGS = {
@@ -21,22 +36,50 @@ PATH_ARGS = {
     "os.truncate": (0,), "os.utime": (0,), "os.link": (0, 1), "os.symlink": (0, 1),
     "os.walk": (0,), "os.fwalk": (0,), "os.chdir": (0,), "os.mkfifo": (0,), "os.mknod": (0,),
     "os.setxattr": (0,), "os.removexattr": (0,), "os.getxattr": (0,), "os.listxattr": (0,),
+    "os.chflags": (0,), "os.lchown": (0,), "os.lchmod": (0,),
     "glob.glob": (0,), "glob.glob/2": (0,), "pathlib.Path.glob": (0,), "pathlib.Path.rglob": (0,),
     "tempfile.mkstemp": (0,), "tempfile.mkdtemp": (0,),
 }
+# path argument index -> index of the dir_fd argument it is relative to
+DIR_FD = {"os.mkdir": {0: 2}, "os.rmdir": {0: 1}, "os.remove": {0: 1}, "os.rename": {0: 2, 1: 3},
+          "os.chmod": {0: 2}, "os.chown": {0: 3}, "os.utime": {0: 3}, "os.link": {0: 2, 1: 3},
+          "os.symlink": {1: 2}, "os.mkfifo": {0: 2}, "os.mknod": {0: 3}}
+READ_ONLY = ("os.listdir", "os.scandir", "os.walk", "os.fwalk", "os.getxattr", "os.listxattr",
+             "glob.glob", "glob.glob/2", "pathlib.Path.glob", "pathlib.Path.rglob")
+PROCESS_EVENTS = ("os.system", "os.exec", "os.posix_spawn", "os.spawn", "os.fork", "os.forkpty",
+                  "subprocess.Popen", "os.startfile", "os.chroot")
+WRITE_FLAGS = os.O_WRONLY | os.O_RDWR | os.O_CREAT | os.O_TRUNC | os.O_APPEND
 
-LOG = []  # ["L", line] | ["E", event, [abs paths], [raw args]] | ["F", type, text]
+LOG = []  # ["L", line] | ["E", event, [abs paths], [raw args], blocked] | ["F", type, text, tb] | ["I", module]
 ARMED = [False]
+TOP = [None]
+
+
+def _mutating(event, args):
+    if event == "open":
+        flags = args[2] if len(args) > 2 else None
+        mode = args[1] if len(args) > 1 else None
+        if isinstance(flags, int):
+            return bool(flags & WRITE_FLAGS)
+        return not (isinstance(mode, str) and set(mode) <= set("rbt"))  # unknown => treat as write
+    return event not in READ_ONLY
 
 
 def _hook(event, args):
     if not ARMED[0]:
         return
+    if event == "import":
+        LOG.append(["I", str(args[0])])
+        return
+    if event in PROCESS_EVENTS:
+        LOG.append(["E", event, [], [repr(args)[:200]], True])
+        raise PermissionError("C54 guard: process creation refused: " + event)
     idx = PATH_ARGS.get(event)
     if idx is None:
         if not event.startswith("shutil."):
             return
         idx = (0, 1)
+    block = False
     try:
         paths, raw = [], []
         for i in idx:
@@ -46,22 +89,80 @@ def _hook(event, args):
             if hasattr(a, "__fspath__"):
                 a = a.__fspath__()
             if isinstance(a, bytes):
-                a = a.decode("utf-8", "surrogateescape")
+                a = os.fsdecode(a)
             if not isinstance(a, str):
                 continue  # file descriptors
             raw.append(a)
+            base = None
+            j = DIR_FD.get(event, {}).get(i)
+            if j is not None and j < len(args) and isinstance(args[j], int) and args[j] >= 0:
+                base = os.readlink("/proc/self/fd/%d" % args[j])
             try:
-                paths.append(os.path.abspath(a))  # lexical: resolves '..', never follows links
+                p = os.path.abspath(a if base is None else os.path.join(base, a))  # lexical, no link following
             except Exception:
-                paths.append(a)
-        if raw:
-            LOG.append(["E", event, paths, raw])
-    except Exception as e:  # the recorder must never disturb the server
-        LOG.append(["E", "hook-error", [], [repr(e)]])
+                p = a
+            paths.append(p)
+        if not raw:
+            return
+        top = TOP[0]
+        if event == "os.chdir":
+            block = True
+        elif _mutating(event, args):
+            block = any(not (p == top or p.startswith(top + os.sep)) for p in paths)
+        LOG.append(["E", event, paths, raw, block])
+    except Exception as e:  # the guard fails closed
+        LOG.append(["E", "hook-error", [], [repr(e)], True])
+        raise PermissionError("C54 guard: hook error, operation refused")
+    if block:
+        raise PermissionError("C54 guard: %s outside the scratch area refused" % event)
+
+
+def drop_privileges():
+    if os.geteuid() != 0:
+        return
+    try:
+        os.setgroups([])
+        os.setgid(UNPRIV)
+        os.setuid(UNPRIV)
+    except OSError as e:
+        sys.stderr.write("C54 server: cannot drop privileges: %r\n" % (e,))
+    if os.geteuid() == 0 or os.getuid() == 0 or os.getegid() == 0:
+        sys.stderr.write("C54 server: still privileged after setuid; refusing to serve\n")
+        sys.exit(EXIT_CANNOT_DROP)
+    try:  # regaining root must be impossible
+        os.setuid(0)
+    except OSError:
+        return
+    sys.stderr.write("C54 server: setuid(0) succeeded after the drop; refusing to serve\n")
+    sys.exit(EXIT_CANNOT_DROP)
+
+
+def preload():
+    """Import what serving may import lazily: after the uid drop the interpreter's own library
+    directory may be unreadable (it lives under /root here)."""
+    import encodings.idna, encodings.latin_1, encodings.utf_8, encodings.ascii  # noqa: F401,E401
+    import fnmatch, grp, ipaddress, linecache, pwd, stat, time, traceback, warnings  # noqa: F401,E401
+    import twisted.internet.address, twisted.internet.tcp, twisted.internet.task  # noqa: F401,E401
+    import twisted.logger._format, twisted.logger._legacy, twisted.logger._stdlib  # noqa: F401,E401
+    import twisted.python.failure, twisted.python.reflect, twisted.python.util  # noqa: F401,E401
+    from twisted.python import failure, log
+    try:
+        raise RuntimeError("warm-up")
+    except RuntimeError:
+        f = failure.Failure()
+    f.getBriefTraceback()
+    f.getTraceback()
+    log.textFromEventDict({"message": (), "isError": 1, "failure": f, "why": None, "system": "-", "time": 0.0})
+    time.strftime("%Y%m%d%H%M%S", time.gmtime(0))
+    try:
+        pwd.getpwuid(UNPRIV), grp.getgrgid(UNPRIV)
+    except KeyError:
+        pass
 
 
 def main():
     cfg = json.loads(sys.argv[1])
+    TOP[0] = cfg["top"]
     sys.addaudithook(_hook)
     rname = cfg["reactor"]
     if rname == "select":
@@ -82,6 +183,8 @@ def main():
     from twisted.python import filepath
     import zope.interface
 
+    preload()
+
     def observer(ev):
         f = ev.get("log_failure") or ev.get("failure")  # new-style / legacy log.err
         if f is not None:
@@ -94,14 +197,46 @@ def main():
             LOG.append(["F", "<no failure>", repr(ev.get("message") or ev.get("log_format"))[:300], ""])
 
     globalLogPublisher.addObserver(observer)
+    from twisted.python import log as legacy_log
+    if legacy_log.defaultObserver is not None:  # full tracebacks on stderr for every refused path are pure cost
+        legacy_log.defaultObserver.stop()
+        legacy_log.defaultObserver = None
+
+    shell_rw, shell_anon = ftp.FTPShell, ftp.FTPAnonymousShell
+    if cfg.get("selftest_unconfined"):
+        # Containment self-test only: an UNCONFINED server built in the harness (twisted untouched on
+        # disk).  Parent references are kept and paths are joined without any check.
+        def loose_segments(cwd, path):
+            segs = [] if path.startswith("/") else cwd[:]
+            for s in path.split("/"):
+                if s in (".", ""):
+                    continue
+                if s == ".." and segs and segs[-1] != "..":
+                    segs.pop()
+                elif "\0" in s:
+                    raise ftp.InvalidPath(cwd, path)
+                else:
+                    segs.append(s)
+            return segs
+
+        ftp.toSegments = loose_segments
+
+        class LooseShell(ftp.FTPShell):
+            def _path(self, path):
+                return filepath.FilePath(os.path.join(self.filesystemRoot.path, *path))
+
+        class LooseAnonShell(ftp.FTPAnonymousShell):
+            _path = LooseShell._path
+
+        shell_rw, shell_anon = LooseShell, LooseAnonShell
 
     @zope.interface.implementer(portal.IRealm)
     class Realm:
         def requestAvatar(self, avatarId, mind, *interfaces):
             if avatarId is checkers.ANONYMOUS:
-                avatar = ftp.FTPAnonymousShell(filepath.FilePath(cfg["anon_root"]))
+                avatar = shell_anon(filepath.FilePath(cfg["anon_root"]))
             else:
-                avatar = ftp.FTPShell(filepath.FilePath(cfg["rw_root"]))
+                avatar = shell_rw(filepath.FilePath(cfg["rw_root"]))
             return ftp.IFTPShell, avatar, lambda: None
 
     db = checkers.InMemoryUsernamePasswordDatabaseDontUse()
@@ -114,7 +249,8 @@ def main():
             if line == stop:
                 ARMED[0] = False
                 with open(cfg["out"], "w") as f:
-                    json.dump({"reactor": type(reactor).__name__, "log": LOG}, f)
+                    json.dump({"reactor": type(reactor).__name__, "euid": os.geteuid(), "uid": os.getuid(),
+                               "egid": os.getegid(), "groups": os.getgroups(), "log": LOG}, f)
                 self.transport.write(b"299 stopped\r\n")
                 self.transport.loseConnection()
                 reactor.callLater(0, reactor.stop)
@@ -127,10 +263,11 @@ def main():
     factory.timeOut = 120
     port = reactor.listenTCP(0, factory, interface="127.0.0.1")
     os.chdir(cfg["cwd"])  # relative paths escaping to the process cwd land inside the scratch area
-    sys.stdout.write("PORT %d\n" % port.getHost().port)
-    sys.stdout.flush()
     reactor.callLater(cfg.get("lifetime", 600), reactor.stop)  # orphan guard, not a verdict
+    drop_privileges()  # nothing has been served yet: the port is only announced below
     ARMED[0] = True
+    sys.stdout.write("PORT %d %d\n" % (port.getHost().port, os.geteuid()))
+    sys.stdout.flush()
     reactor.run()
     ARMED[0] = False
 
